@@ -199,5 +199,44 @@ def run(ctx):
                 break
 
 
+    # ---- nested sector sets: a strict subset on either side must be refused as well ---------------------------
+    for case in range(6 if quick else 40):
+        norb = rng.choice([2, 3])
+        big = C01.make_wfn(ctx, "multi", norb, rng)
+        keys = sorted(big.sectors())
+        if len(keys) < 2:
+            continue
+        sub = fqe.Wavefunction([[n, s, norb] for n, s in keys[:rng.randint(1, len(keys) - 1)]])
+        U.random_fill(sub, rng)
+        for left, right, label in ((sub, big, "subset+superset"), (big, sub, "superset+subset")):
+            for opname in ("ax_plus_y", "add", "sub", "iadd"):
+                sl, sr = U.wfn_dict(left), U.wfn_dict(right)
+                try:
+                    if opname == "ax_plus_y":
+                        left.ax_plus_y(2.0, right)
+                    elif opname == "add":
+                        left + right
+                    elif opname == "sub":
+                        left - right
+                    else:
+                        tmp = copy.deepcopy(left)
+                        tmp += right
+                    raised = False
+                except ValueError:
+                    raised = True
+                ctx.case(("nested", case, label, opname))
+                ctx.count("nested-sector-sets")
+                if not raised:
+                    ctx.disagree("arith:mismatch", f"{opname} combined operands with nested but different sector sets ({label})",
+                                 {"left": sorted(left.sectors()), "right": sorted(right.sectors()), "op": opname})
+                    # restore for the following operations
+                    if opname == "ax_plus_y":
+                        left.set_wfn(strategy="from_data", raw_data={k: numpy.array([[sl[(int(a), int(b))]
+                                     for b in left.sector(k)._core.string_beta_all()] for a in left.sector(k)._core.string_alpha_all()])
+                                     for k in left.sectors()})
+                elif U.wfn_dict(left) != sl or U.wfn_dict(right) != sr:
+                    ctx.disagree("arith:mismatch", f"operands changed by a refused {opname}", {"op": opname})
+
+
 def replay(ctx, rep):
     run(ctx)
